@@ -33,6 +33,37 @@ def integrateEntry (knot : Array K) (p : ℕ) (N0 N1 : Array K) (i : ℕ) : K :=
   (knot.getD (i + p) 0 - knot.getD i 0) / (p : K) *
     (List.range' i (N0.size - i)).foldl (fun acc j => acc + (N1.getD j 0 - N0.getD j 0)) 0
 
+/-- `knot = [self.knots[0]] + list(self.knots) + [self.knots[-1]]`. -/
+def augKnots (b : Basis K) : Array K := (#[b.kn 0] ++ b.knots).push (b.kn (b.knots.size - 1))
+
+/-- The basis `BSplineBasis(p + 1, knot)` the constructor returns for a valid `b`
+(`Lemmas/C16Integrate.lean`: `mk?_augKnots`). -/
+def aug (b : Basis K) : Basis K := { order := b.order + 1, knots := b.augKnots, periodic := -1 }
+
+/-- The list `N` of `integrate` after `N = N[1:]`, for the integration basis `ib` and the clamped
+limits. -/
+def integrateRaw (b ib : Basis K) (tol t0' t1' : K) : Array K :=
+  let N0 := ib.evaluate tol t0' 0 true
+  let N1 := ib.evaluate tol t1' 0 true
+  -- N = [(knot[i+p]-knot[i])*1.0/p * np.sum(N1[i:]-N0[i:]) for i in range(N0.size)]
+  let N : Array K := Array.ofFn (n := N0.size) (fun i => integrateEntry b.augKnots b.order N0 N1 i.val)
+  -- N = N[1:]
+  N.extract 1 N.size
+
+/-- "collapse periodic functions onto themselves":
+`n = self.num_functions(); M = [0.0] * n; for j in range(len(N)): M[j % n] += N[j]; N = M`
+(sum of ALL wrapped images — literal mirror of the source since the fix of finding
+`integrate-periodic-collapse-single-fold`; the originally pinned source folded only once, which is
+the same exactly when `k + 1 ≤ n`). -/
+def integrateCollapse (b : Basis K) (N : Array K) : PyM (Array K) :=
+  let k1 := (b.periodic + 1).toNat
+  if N.size = 0 then .ok #[] else
+  if N.size < k1 then .error .index else        -- n < 0: `[0.0]*n` is empty, `M[j % n]` fails
+  let n := N.size - k1
+  if n = 0 then .error .zeroDiv else            -- `j % 0`
+  .ok (Array.ofFn (n := n) (fun c =>
+    (List.range N.size).foldl (fun acc i => if i % n = c.val then acc + N.getD i 0 else acc) 0))
+
 /-- `BSplineBasis.integrate(t0, t1)`.
 
 `raise NotImplemented('…')` in the source CALLS the constant `NotImplemented`, which is not
@@ -41,33 +72,12 @@ def integrate (b : Basis K) (tol t0 t1 : K) : PyM (Array K) :=
   if b.periodic > -1 ∧ (t0 < b.start ∨ t1 > b.stop) then .error .type else
   let t0' := max t0 b.start
   let t1' := min t1 b.stop
-  let p := b.order
-  -- knot = [self.knots[0]] + list(self.knots) + [self.knots[-1]]
-  let knot : Array K := (#[b.kn 0] ++ b.knots).push (b.kn (b.knots.size - 1))
   -- integration_basis = BSplineBasis(p + 1, knot)
-  match mk? (p + 1) knot (-1) tol with
+  match mk? (b.order + 1) b.augKnots (-1) tol with
   | .error e => .error e
   | .ok ib =>
-    let N0 := ib.evaluate tol t0' 0 true
-    let N1 := ib.evaluate tol t1' 0 true
-    -- N = [(knot[i+p]-knot[i])*1.0/p * np.sum(N1[i:]-N0[i:]) for i in range(N0.size)]
-    let N : Array K := Array.ofFn (n := N0.size) (fun i => integrateEntry knot p N0 N1 i.val)
-    -- N = N[1:]
-    let N := N.extract 1 N.size
-    if b.periodic > -1 then
-      -- n = self.num_functions(); M = [0.0] * n
-      -- for j in range(len(N)): M[j % n] += N[j]     (sum of ALL wrapped images; N = M)
-      -- (literal mirror of the source since the fix of finding
-      --  `integrate-periodic-collapse-single-fold`; the pinned source folded only once, which is
-      --  the same exactly when `k + 1 ≤ n`.)
-      let k1 := (b.periodic + 1).toNat
-      if N.size = 0 then .ok #[] else
-      if N.size < k1 then .error .index else        -- n < 0: `[0.0]*n` is empty, `M[j % n]` fails
-      let n := N.size - k1
-      if n = 0 then .error .zeroDiv else            -- `j % 0`
-      .ok (Array.ofFn (n := n) (fun c =>
-        (List.range N.size).foldl (fun acc i => if i % n = c.val then acc + N.getD i 0 else acc) 0))
-    else .ok N
+    let N := b.integrateRaw ib tol t0' t1'
+    if b.periodic > -1 then b.integrateCollapse N else .ok N
 
 end Basis
 
